@@ -111,6 +111,18 @@ def check(model, rep):
         c = n.value.value
         fw = isinstance(c, ast.Call) and len(c.args) >= 3 and [src(a) for a in c.args[:3]] == [disp.params[0], disp.params[1], disp.params[2]]
         rep.ob('R20.1', disp, src(c)[:60], fw, 'matrix/title/nd are not forwarded unchanged to the renderer', line=n.lineno)
+    # ... and what those names hold at the call is what the caller passed: on every path the renderer receives the parameters themselves
+    from ..engine.paths import paths_of as _paths20
+    n_fw = 0
+    for pth in _paths20(disp.node, disp.params):
+        for ev in pth.calls(lambda t: t in ('dispa', 'disptex')):
+            n_fw += 1
+            got = list(ev[2][:3])
+            want = [disp.params[0], disp.params[1], disp.params[2]]
+            rep.ob('R20.1', disp, '%s receives the object, title and precision disp was given' % ev[1], got == want,
+                   'on a path the renderer is handed %s instead of (%s): what is rendered is no longer the element rounded to nd decimals (e.g. values '
+                   'pre-processed or snapped before display)' % ([g[:60] for g in got], ', '.join(want)), line=ev[3])
+    rep.floor('R20.1', 'renderer calls on the paths of disp', n_fw, 2)
 
     # ---------------------------------------------------------------- R20.2 / R20.3 on dispa
     rep.rule('R20.2', 'exactly one rendering per element / sub-array per iteration of range(shape[0]) on every path; precision nd; nd forwarded')
